@@ -19,6 +19,7 @@ type Unit struct {
 	Weight    int // rough relative cost, for ordering
 	MaxExecs  int
 	NoConfirm bool
+	NoFree    bool // no free-running validation (the body may block forever by design)
 	// AllVisible: every hooked operation is a scheduling point (no ownership / read-shared
 	// reduction); affordable for short bodies such as Setup
 	AllVisible bool
@@ -93,7 +94,7 @@ func RunUnit(u *Unit, shard, nshards int, deadline time.Time, boundOverride int)
 	freeRuns, freeViol := 0, 0
 	// (skipped once the exploration has found a violation: the code is already known to be
 	// broken, and a free-running execution of a deadlocking change would never return)
-	if n := freeRunCount(); n > 0 && u.Check != nil && !u.Env && e.HarnessErr == "" && len(e.Violations) == 0 {
+	if n := freeRunCount(); n > 0 && u.Check != nil && !u.Env && !u.NoFree && e.HarnessErr == "" && len(e.Violations) == 0 {
 		for i := 0; i < n; i++ {
 			xc := make(chan *Exec, 1)
 			go func() { xc <- FreeRun(u.Sc, dir) }()
